@@ -32,6 +32,7 @@ func init() {
 		{Name: "offset table not closed with len(text)", File: "internal/lsp/diff/ndiff.go", Old: "\toffs = append(offs, len(text))\n", New: "", Expect: "rune-offsets-from-source :: decoder decodeRunes"},
 		{Name: "a literal U+FFFD treated as an invalid byte", File: "internal/lsp/diff/ndiff.go", Old: "if r == utf8.RuneError && sz == 1 {", New: "if r == utf8.RuneError {", Expect: "rune-offsets-from-source :: decoder decodeRunes"},
 		{Name: "invalid bytes all get the same value", File: "internal/lsp/diff/ndiff.go", Old: "r = invalidRune + rune(text[i])", New: "r = invalidRune + rune(sz)", Expect: "rune-offsets-from-source :: decoder decodeRunes"},
+		{Name: "decoder pre-sizes the rune list", File: "internal/lsp/diff/ndiff.go", Old: "runes = make([]rune, 0, n)", New: "runes = make([]rune, 1, n)", Expect: "rune-offsets-from-source :: decoder decodeRunes"},
 		{Name: "Strings passes the texts swapped", File: "internal/lsp/diff/ndiff.go", Old: "return diffRunes(before, after)", New: "return diffRunes(after, before)", Expect: "rune-offsets-from-source :: caller Strings"},
 		{Name: "isASCIIByte treats 0x80 as ASCII", File: "internal/lsp/diff/ndiff.go", Old: "func isASCIIByte(s []byte) bool {\n\tfor i := 0; i < len(s); i++ {\n\t\tif s[i] >= utf8.RuneSelf {", New: "func isASCIIByte(s []byte) bool {\n\tfor i := 0; i < len(s); i++ {\n\t\tif s[i] > utf8.RuneSelf {", Expect: "ascii-test"},
 		{Name: "lcs: forward search compares the wrong diagonal", File: "internal/lsp/diff/lcs/old.go", Old: "\t\t\t\te.setForward(D+1, k, lookv)", New: "\t\t\t\te.setForward(D+1, k+1, lookv)", Expect: "origin-agreement"},
